@@ -31,6 +31,10 @@ def parseAct (s : String) : Option SAct :=
   | ["U", i] => i.toNat?.map SAct.cont
   | ["J"] => some .jobs
   | ["E"] => some .empty
+  -- `export V=$(fgprobe pN)`: a one-stage pipeline run for a command substitution.  `run_pipeline` is the same code as for a typed
+  -- foreground pipeline (under capture no job is inserted, which for a foreground stage that ends by itself is never printed);
+  -- the stage records, while it runs, whether its group owns the terminal (`probeOwns` below)
+  | ["P"] => some (.launch false [.exit 0])
   | _ => none
 
 def parseActs (s : String) : List SAct := (s.splitOn ";").filterMap parseAct
@@ -135,24 +139,42 @@ structure Replay where
   obs : List String := []
   bad : Option String := none
 
-def replayModel (c : Cfg) (acts : List SAct) : Replay :=
+/-- which actions of the wire text are probes (`P`), position by position -/
+def probeFlags (s : String) : List Bool := (s.splitOn ";").filterMap fun a => (parseAct a).map fun _ => a = "P"
+
+/-- the model's answer to the probe: the state in which the probing stage runs -- every step of the launch taken, the stage's own
+exit not yet -- has the stage's group as the terminal's foreground group, and the stage leads that group -/
+def probeOwns (c : Cfg) (s : State) : Bool × Bool :=
+  let n0 := s.procs.length
+  let pid := pidBase + n0 + 1
+  let acts := (launchActs c stageCmd n0 false [.exit 0]).takeWhile fun a => !(a == Act.exit pid 0 || a == Act.launched)
+  match run c s acts with
+  | some s' => (s'.tfg == pid, s'.procs.any fun p => p.pid == pid && p.pgid == pid)
+  | none => (false, false)
+
+def probeText (b : Bool × Bool) : String := s!";own={if b.1 then 1 else 0}{if b.2 then 1 else 0}"
+
+def replayModel (c : Cfg) (acts : List SAct) (probes : List Bool := []) : Replay :=
   let hs := helpers acts
   acts.foldl (fun (r : Replay) a =>
     if r.bad.isSome then r else
     match macroAll c r.st a with
     | .ok s' =>
       let cmdOf := fun g => ((s'.cmds.find? (·.1 = pidBase + g)).map (·.2)).getD "?"
-      { st := s', obs := r.obs ++ [obsText hs cmdOf (observe r.st s')] }
+      let pr := if probes.getD r.obs.length false then probeText (probeOwns c r.st) else ""
+      { st := s', obs := r.obs ++ [obsText hs cmdOf (observe r.st s') ++ pr] }
     | .stuck => { r with bad := some s!"stuck at action {r.obs.length}" }
     | .orderSensitive => { r with bad := some s!"order-sensitive at action {r.obs.length}" }) {}
 
-def replaySpec (acts : List SAct) : List String :=
+def replaySpec (acts : List SAct) (probes : List Bool := []) : List String :=
   let hs := helpers acts
   let tbl := cmdTable acts
   let cmdOf := fun g => ((tbl.find? (·.1 = g)).map (·.2)).getD "?"
   (acts.foldl (fun (acc : World × List String) a =>
     let (w', outs) := specStep acc.1 a
-    (w', acc.2 ++ [obsText hs cmdOf (specObs w' outs)])) ({}, [])).2
+    -- the statement: while it runs, the foreground pipeline's group -- led by its first stage -- owns the terminal
+    let pr := if probes.getD acc.2.length false then probeText (true, true) else ""
+    (w', acc.2 ++ [obsText hs cmdOf (specObs w' outs) ++ pr])) ({}, [])).2
 
 /-! ### random sessions -/
 
